@@ -675,6 +675,34 @@ func (e *Env) evalCall(c *ast.CallExpr) Val {
 			e.fail("elems: element type %s is not string-kinded", st.Elem())
 		}
 		return Val{T: setType(et), L: []Term{e.st.elemsOf([3]Term{v.L[0], v.L[1], v.L[2]})}}
+	case "prefix":
+		// prefix(s, k): the first k elements of s (s[:k]); for slices of string-kinded values the
+		// element set of the prefix is unfolded one step: elems(s[:k]) == elems(s[:k-1]) ∪ {s[k-1]}
+		v := e.eval(arg(0))
+		k := e.eval(arg(1)).L[0]
+		slt, ok := v.T.Underlying().(*types.Slice)
+		if !ok {
+			e.fail("prefix of non-slice %s", v.T)
+		}
+		if ls := leavesOf(slt.Elem()); len(ls) == 1 && ls[0].Sort == "String" {
+			key := "prefix|" + v.L[0] + "|" + v.L[1] + "|" + k
+			if !e.st.instd[key] {
+				e.st.instd[key] = true
+				km1 := "(- " + k + " 1)"
+				elemAddr := extendIdx(v.L[0], tAddInt(v.L[1], km1))
+				x := e.st.loadIn(e.cur, "String", elemAddr)
+				e.st.assume(tImp("(> "+k+" 0)", tEq(e.st.elemsOf([3]Term{v.L[0], v.L[1], k}), tStore(e.st.elemsOf([3]Term{v.L[0], v.L[1], km1}), x, "true"))))
+			}
+		}
+		return Val{T: v.T, L: []Term{v.L[0], v.L[1], k}}
+	case "alltags":
+		// alltags(s, T): every element of the slice of interface values s has dynamic type T
+		v := e.eval(arg(0))
+		if _, ok := v.T.Underlying().(*types.Slice); !ok {
+			e.fail("alltags of non-slice %s", v.T)
+		}
+		id := e.x.prog.typeID(e.x.typeOfExpr(arg(1)))
+		return boolVal(fmt.Sprintf("(forall ((q_ Int)) (=> (select %s q_) (= q_ %d)))", e.st.tagsOf([3]Term{v.L[0], v.L[1], v.L[2]}), id))
 	case "subset":
 		a, b := e.eval(arg(0)), e.eval(arg(1))
 		return boolVal("(forall ((q_ String)) (=> (select " + a.L[0] + " q_) (select " + b.L[0] + " q_)))")
